@@ -721,6 +721,16 @@ def arith_tie(ctx, d, p, units):
                 t = float(_transform.ndtr(z))
                 add_row("rawu", t, d["lo"], d["hi"], want=real, scale=max(abs(d["lo"]), abs(d["hi"])),
                         what="message.value_for = rawUniformD(ndtr)")
+            elif k == "L" and math.isfinite(d["hi"] / d["lo"]):
+                z = float(0.0 + (1.0 * np.sqrt(2) * inv))
+                add_row("rawg", 0.0, 1.0, inv, want=z, scale=abs(z) if math.isfinite(z) else 0.0,
+                        what="NormalMessage(0,1).value_for = rawGaussianD")
+                t = float(_transform.ndtr(z))
+                scale_, shift_ = float(np.log10(d["hi"] / d["lo"])), float(np.log10(d["lo"]))
+                prod = float(f64(t) * f64(scale_))
+                add_row("mul", t, scale_, want=prod)
+                add_row("add", prod, shift_, want=real, scale=max(abs(prod), abs(shift_)),
+                        what="message.value_for = 10**(t*scale+shift)")
     m = ctx.lean.ask({"p": "C02", **wire_prior(d), "us": [], "arith": rows})
     if "driver_error" in m:
         ctx.disagree("driver", {"prior": canon_prior(d)}, None, m.get("driver_error"))
@@ -735,6 +745,12 @@ def arith_tie(ctx, d, p, units):
                 got = float(np.exp(got))
             slack = abs(want) * arg_slack * 1.01 if math.isfinite(want) else 0.0
             scale = 0.0
+        if what.endswith("10**(t*scale+shift)"):
+            arg_slack = 4 * ulp(max(scale, abs(got))) if math.isfinite(got) else 0.0
+            with np.errstate(all="ignore"):
+                got = float(10 ** np.float64(got))
+            slack = abs(want) * arg_slack * 2.4 if math.isfinite(want) else 0.0
+            scale = 0.0
         if bits_same(got, want) or (got == 0.0 and want == 0.0 and what.startswith("message")):
             ctx.hit("arith:" + what.split("(")[0].split(" ")[0])
             continue
@@ -745,6 +761,24 @@ def arith_tie(ctx, d, p, units):
             continue
         ctx.disagree("doubles as data: " + what, {"prior": canon_prior(d), "args": [num(x) for x in args]},
                      num(want), num(got))
+
+
+def rand_dbl_tie(ctx, d, rows, mr):
+    """`randomUnitD` (the generic randomUnit at Dbl, IEEE arithmetic as data) = Python's own
+    `max(lo, a) + (min(hi, b) - max(lo, a)) * r` (the arithmetic of random.uniform) bit for bit, = the Float run"""
+    for row, mh, dh in zip(rows, mr.get("rand", []), mr.get("randD", ["missing"] * len(rows))):
+        lo_u, hi_u, a, b, r01 = (h2f(x) for x in row)
+        x, y = max(lo_u, a), min(hi_u, b)
+        want = x + (y - x) * r01
+        got = h2f(dh) if dh != "missing" else math.nan
+        if dh == "missing" or not bits_same(got, want) or not bits_same(got, h2f(mh)):
+            ctx.disagree("randomUnitD = random.uniform arithmetic", {"prior": canon_prior(d), "row": [num(h2f(v)) for v in row]},
+                         num(want), [num(got), num(h2f(mh))])
+        else:
+            ctx.hit("randD")
+        # theorem `randomUnitD_ge_lower` on the real arithmetic: never below the lower end
+        if x == x and y == y and x <= y and 0.0 <= r01 and math.isfinite(y - x) and not (want >= x):
+            ctx.disagree("random.uniform >= lower end", {"row": [num(h2f(v)) for v in row]}, num(want), num(x))
 
 
 def one_prior(ctx, d, units=None, seeds=None, cfg=None, label="gen", mp_queue=None):
@@ -960,6 +994,7 @@ def one_prior(ctx, d, units=None, seeds=None, cfg=None, label="gen", mp_queue=No
         ctx.fail("C02-unexpected-exception", f"unit limits raised {a} {b}", case0)
     else:
         mr = ctx.lean.ask({"p": "C02", "cfg": cfg, **wp, "us": [], "rand": rows})
+        rand_dbl_tie(ctx, d, rows, mr)
         # model's own unit limits vs the implementation's
         for name, real_v, mod_h in (("lower_unit_limit", a, mr["a"]), ("upper_unit_limit", b, mr["b"])):
             mv = h2f(mod_h)
